@@ -174,6 +174,10 @@ BOUNDARY = [
     # two str refinements at once: the filler around a required substring / inside a length range comes from the declared alphabet
     "schema.str.alphabet('ab').contains('a')", "schema.str.alphabet('ab').contains('ab').len(5)", "schema.str.alphabet('xy').contains('y').len(3, 9)",
     "schema.str.alphabet('01').contains('10').len(2, ...)", "schema.str.alphabet('z').contains('').len(4)", "schema.str.alphabet('q').contains('qq').len(..., 6)",
+    # typed lists inside typed lists with a lower length bound above the generator's defaults at every level
+    "schema.list(schema.list(schema.int).len(9, ...))", "schema.list(schema.list(schema.list(schema.int).len(5, ...)))",
+    "schema.dict({'m': schema.list(schema.list(schema.str.len(1)).len(12, 20)).len(1, 2)})", "schema.list(schema.list(schema.list(schema.list(schema.none).len(3, ...))))",
+    "schema.list(schema.list(schema.bool).len(40, ...)).len(2)", "schema.any(schema.list(schema.list(schema.int).len(11, 12)))",
     # IGNORECASE with a negated class / negated literal (F42)
     "schema.str.regex('(?i)[^a]')", "schema.str.regex('(?i)[^a-z]{3}')", "schema.str.regex('(?i:[^b])x')", "schema.str.regex('(?i)a[^a]')",
     "schema.list(schema.str.regex('(?i)[^a-y]')).len(2)",
